@@ -489,8 +489,54 @@ def apply(ex, ctx, st, f, args, dest_ty, term):
         return map_ite(args[0], br), st
     if path.startswith('<core::option::Option<T> as core::ops::FromResidual'):
         return OPTION_NONE, st
-    if path.startswith('core::option::Option::<T>::'):
+    if path.startswith('core::option::Option::<'):
         o = args[0]
+        while o[0] == 'ref':
+            o = ex.load(st, o)
+        if name == 'and_then':
+            def at(l):
+                nonlocal st
+                if l[1][2] == 0:
+                    return OPTION_NONE
+                r, st = call_closure(ex, ctx, st, args[1], [l[2][0]])
+                return r
+            return map_ite(o, at), st
+        if name == 'map_or':
+            def mo(l):
+                nonlocal st
+                if l[1][2] == 0:
+                    return args[1]
+                r, st = call_closure(ex, ctx, st, args[2], [l[2][0]])
+                return r
+            return map_ite(o, mo), st
+        if name == 'map_or_else':
+            def moe(l):
+                nonlocal st
+                if l[1][2] == 0:
+                    r, st = call_closure(ex, ctx, st, args[1], [])
+                    return r
+                r, st = call_closure(ex, ctx, st, args[2], [l[2][0]])
+                return r
+            return map_ite(o, moe), st
+        if name == 'unwrap_or_else':
+            def uoe(l):
+                nonlocal st
+                if l[1][2] == 1:
+                    return l[2][0]
+                r, st = call_closure(ex, ctx, st, args[1], [])
+                return r
+            return map_ite(o, uoe), st
+        if name == 'or':
+            return map_ite(o, lambda l: l if l[1][2] == 1 else args[1]), st
+        if name == 'filter':
+            def fl(l):
+                nonlocal st
+                if l[1][2] == 0:
+                    return OPTION_NONE
+                rx = ex.new_tmp(st, l[2][0])
+                r, st = call_closure(ex, ctx, st, args[1], [rx])
+                return mk_ite(r, l, OPTION_NONE)
+            return map_ite(o, fl), st
         if name == 'is_some':
             return map_ite(o, lambda l: C(1 if l[1][2] == 1 else 0, 'bool')), st
         if name == 'is_none':
@@ -547,6 +593,8 @@ def apply(ex, ctx, st, f, args, dest_ty, term):
     if path.startswith('core::result::Result::<T, E>::'):
         R = 'core::result::Result'
         o = args[0]
+        while o[0] == 'ref':
+            o = ex.load(st, o)
         okix = pdb.variant_index(R, 'Ok')
         if name == 'is_ok':
             return map_ite(o, lambda l: C(1 if l[1][2] == okix else 0, 'bool')), st
